@@ -1336,6 +1336,9 @@ func judgeWrapper(h *wHist) ([]finding, wStats) {
 				if e.Method != c.Method || e.Subject != c.Subject {
 					continue
 				}
+				if e.Start > c.Ret {
+					continue // began after this call had returned: cannot have served it
+				}
 				if e.End == 0 || e.End > c.Ret {
 					early = true
 					continue
